@@ -13,8 +13,8 @@ namespace OP2Utility
 	void ArtFile::ValidateImageMetadata() const
 	{
 		for (const auto& imageMeta : imageMetas) {
-			// Bitwise operation rounds up to the next 4 byte interval
-			if (imageMeta.scanLineByteWidth != ((imageMeta.width + 3) & ~3)) {
+			// Bitwise operation rounds up to the next 4 byte interval (in 64 bits: a width near UINT32_MAX must not wrap around to a small value)
+			if (imageMeta.scanLineByteWidth != ((static_cast<uint64_t>(imageMeta.width) + 3) & ~static_cast<uint64_t>(3))) {
 				throw std::runtime_error("Image scan line byte width is not valid. It must be the width of the image rounded up to a 4 byte interval.");
 			}
 
